@@ -65,14 +65,13 @@ class JaggedArray:
                         shapes.append(numpyArray.shape)
                         offset += numpyArray.size
                         flattenedArray.extend(numpyArray.flatten())
-                    except:  # noqa: E722
-                        # numpy might fail if it's jagged
-                        flattenedList = self.flatten(arr)
-                        shapes.append(
-                            len(flattenedList),
+                    except Exception:
+                        # an entry that is jagged itself has no shape to store: flattening it would
+                        # read back as something else (and used to be unreadable), so it is refused
+                        raise ValueError(
+                            "Cannot store entry {} of `{}` in a JaggedArray: it is not a "
+                            "rectangular array ({})".format(i, paramName, arr)
                         )
-                        offset += len(flattenedList)
-                        flattenedArray.extend(flattenedList)
             elif isinstance(arr, (int, float, np.integer, np.floating)):
                 offsets.append(offset)
                 shapes.append((1,))
